@@ -38,6 +38,9 @@ def check_pair(case, ctx):
         A = np.asarray(p.adjacency_matrix, dtype=float)
         M = np.asarray(p.nnps_matrix, dtype=float)
     sig = dict(part="NNSpacePartitioner")
+    for nm_, arr, nd in (("D", got_D, 2), ("v1", got_v1, 1), ("v2", got_v2, 1), ("adjacency_matrix", A, 2), ("nnps_matrix", M, 2)):
+        if arr.ndim != nd or arr.dtype == object:
+            raise Violation("nnsp-malformed-output", f"{nm_} is not a {nd}-dimensional numeric array after build(): {arr!r}"[:300], **sig)
     # --- D: exactly the distinct rows of the union
     rows = [tuple(r) for r in got_D.tolist()]
     if len(set(rows)) != len(rows) or set(rows) != {tuple(r) for r in D.tolist()}:
